@@ -54,10 +54,36 @@ func DeserializeSessionDescription(msg string) (*webrtc.SessionDescription, erro
 		stype = webrtc.SDPTypeRollback
 	}
 
+	// The SDP text is handed to pion's parser later on (SetRemoteDescription,
+	// StripLocalAddresses, remote address extraction). Refuse text on which that
+	// parser panics, so that a crafted message cannot take the process down.
+	if _, err := ParseSDP(sdpStr); errors.Is(err, ErrSDPParserPanic) {
+		return nil, err
+	}
+
 	return &webrtc.SessionDescription{
 		Type: stype,
 		SDP:  sdpStr,
 	}, nil
+}
+
+// ErrSDPParserPanic is returned by ParseSDP when the SDP parser panicked.
+var ErrSDPParserPanic = errors.New("SDP parser panicked on malformed input")
+
+// ParseSDP unmarshals SDP text. The parser of github.com/pion/sdp/v3 panics on
+// some malformed input (for example an "r=" line without fields); such a panic
+// is turned into ErrSDPParserPanic.
+func ParseSDP(str string) (desc *sdp.SessionDescription, err error) {
+	defer func() {
+		if r := recover(); r != nil {
+			desc, err = nil, ErrSDPParserPanic
+		}
+	}()
+	desc = new(sdp.SessionDescription)
+	if err = desc.Unmarshal([]byte(str)); err != nil {
+		return nil, err
+	}
+	return desc, nil
 }
 
 // Stolen from https://github.com/golang/go/pull/30278
@@ -78,8 +104,7 @@ func IsLocal(ip net.IP) bool {
 
 // Removes local LAN address ICE candidates
 func StripLocalAddresses(str string) string {
-	var desc sdp.SessionDescription
-	err := desc.Unmarshal([]byte(str))
+	desc, err := ParseSDP(str)
 	if err != nil {
 		return str
 	}
